@@ -434,3 +434,416 @@ Proof.
   destruct it; cbn [resolve_blobs]; try discriminate; try exact IH;
     (eapply good_bind; [exact IH|intros; exact I]).
 Qed.
+
+(* ---- transform_pseudo_instructions ---------------------------------------------------------------------------------- *)
+Definition treg (f : tfield) : bool := match f with TFReg _ | TFInt _ => true | _ => false end.
+Fixpoint tshape_okb (keys : list string) (fs : list (string * tfield)) : bool :=
+  match fs with
+  | [] => match keys with [] => true | _ => false end
+  | (k, f) :: r =>
+      if is_flag_key k then (match f with TFBool _ => true | _ => false end) && tshape_okb keys r
+      else if is_ghost_key k then tshape_okb keys r
+      else match keys with
+           | k' :: ks => String.eqb k k' && (if String.eqb k "imm" then match f with TFImm _ => true | _ => false end else treg f)
+                         && tshape_okb ks r
+           | [] => false
+           end
+  end.
+Definition tinst_okb (i : tinst) : bool :=
+  match assoc_str (ti_cls i) class_sig, class_keys (ti_cls i) with
+  | Some (names, _), Some keys => mem_str (ti_name i) names && imm_once keys && tshape_okb keys (ti_fields i)
+  | _, _ => false
+  end.
+Definition template_okb (t : ttemplate) : bool :=
+  match t with
+  | TOne i => tinst_okb i
+  | TChoice _ _ _ _ near far1 far2 => tinst_okb near && tinst_okb far1 && tinst_okb far2
+  end.
+(* every template of the table REGENERATED from transform_pseudo_instructions builds instructions of the right shape *)
+Lemma templates_ok : forallb (fun r => template_okb (snd (snd r))) pseudo_table = true.
+Proof. vm_compute. reflexivity. Qed.
+
+Lemma inst_expr_ok args parsed : expr_ok parsed = true -> forall e x, inst_expr args parsed e = Some x -> expr_ok x = true.
+Proof.
+  intros Hp. induction e as [z|n| |e IH|e IH]; simpl; intros x H.
+  - inversion H. reflexivity.
+  - destruct (nth_error args n); inversion H. reflexivity.
+  - inversion H; subst. exact Hp.
+  - destruct (inst_expr args parsed e) as [y|]; inversion H. simpl. eauto.
+  - destruct (inst_expr args parsed e) as [y|]; inversion H. simpl. eauto.
+Qed.
+Lemma inst_fields_shape args parsed : expr_ok parsed = true -> forall fs keys fvs,
+  tshape_okb keys fs = true -> inst_fields args parsed fs = Some fvs -> shape_okb false keys fvs = true.
+Proof.
+  intros Hp. induction fs as [|[k f] r IH]; intros keys fvs T H.
+  - simpl in H. inversion H; subst. exact T.
+  - cbn [inst_fields] in H. destruct (inst_field args parsed f) as [v|] eqn:Ef; try discriminate.
+    destruct (inst_fields args parsed r) as [rest|] eqn:Er; try discriminate. inversion H; subst. clear H.
+    cbn [tshape_okb] in T. cbn [shape_okb].
+    destruct (is_flag_key k).
+    { apply andb_prop in T. destruct T as [A B]. destruct f; try discriminate. simpl in Ef. inversion Ef. simpl. eauto. }
+    destruct (is_ghost_key k). { eauto. }
+    destruct keys as [|k' ks]; [discriminate|].
+    apply andb_prop in T. destruct T as [A B]. apply andb_prop in A. destruct A as [A1 A2]. rewrite A1. simpl.
+    rewrite (IH _ _ B eq_refl). rewrite andb_true_r.
+    destruct (String.eqb k "imm").
+    + destruct f; try discriminate. simpl in Ef. destruct (inst_expr args parsed e) as [x|] eqn:Ex; inversion Ef. simpl.
+      eapply inst_expr_ok; eauto.
+    + destruct f; try discriminate; simpl in Ef.
+      * destruct (inst_arg args a); inversion Ef. reflexivity.
+      * inversion Ef. reflexivity.
+Qed.
+Lemma inst_item_ok args parsed i it :
+  expr_ok parsed = true -> tinst_okb i = true -> inst_item args parsed i = Some it -> okb 2 it = true.
+Proof.
+  intros Hp T H. unfold inst_item in H. destruct (inst_fields args parsed (ti_fields i)) as [fvs|] eqn:Ef; inversion H; subst.
+  unfold tinst_okb in T. cbn [okb Nat.leb Nat.eqb andb]. unfold instr_okb.
+  destruct (assoc_str (ti_cls i) class_sig) as [[names kinds]|]; try discriminate.
+  destruct (class_keys (ti_cls i)) as [keys|]; try discriminate.
+  apply andb_prop in T. destruct T as [A B]. rewrite A. simpl. eapply inst_fields_shape; eauto.
+Qed.
+
+Definition pexp_ok (px : pexp) : Prop :=
+  match px with
+  | One it => okb 2 it = true
+  | Choice e _ _ _ near far1 far2 => expr_ok e = true /\ okb 2 near = true /\ okb 2 far1 = true /\ okb 2 far2 = true
+  end.
+Lemma dummy_ok : expr_ok dummy = true. Proof. reflexivity. Qed.
+Lemma instantiate_good t args pimm :
+  template_okb (snd t) = true -> arity_ok (fst t) args = true ->
+  negb (uses_parsed (snd t)) || pimm_fine pimm = true ->
+  good pexp_ok (instantiate t args pimm).
+Proof.
+  intros T A P. unfold instantiate. rewrite A. destruct (snd t) as [i|e g lo hi near f1 f2].
+  - destruct (inst_item args dummy i) as [it|] eqn:E; [|exact I]. simpl. eapply inst_item_ok; eauto. apply dummy_ok.
+  - cbn [template_okb] in T. apply andb_prop in T. destruct T as [T T3]. apply andb_prop in T. destruct T as [T1 T2].
+    eapply good_bind with (Q := fun pe => expr_ok pe = true).
+    + destruct e; try (destruct (inst_expr args dummy _) as [x|] eqn:Ex; [|exact I]; simpl; eapply inst_expr_ok; eauto; apply dummy_ok).
+      cbn [uses_parsed negb orb] in P. destruct pimm as [x|[l'|y]]; simpl in *; auto. discriminate.
+    + intros pe Hpe.
+      destruct (inst_item args pe near) as [a|] eqn:Ea; [|exact I].
+      destruct (inst_item args pe f1) as [b|] eqn:Eb; [|exact I].
+      destruct (inst_item args pe f2) as [c|] eqn:Ec; [|exact I].
+      simpl. split; [exact Hpe|]. split; [exact (inst_item_ok _ _ _ _ Hpe T1 Ea)|].
+      split; [exact (inst_item_ok _ _ _ _ Hpe T2 Eb)|exact (inst_item_ok _ _ _ _ Hpe T3 Ec)].
+Qed.
+Lemma pseudo_rule_good consts l it p ls : okb 1 it = true -> is_label it = None -> good (oki 2) (pseudo_rule consts l it p ls).
+Proof.
+  intros H _. destruct it; cbn [pseudo_rule];
+    try (apply good_done; constructor; [apply ok_1_2; auto; exact I|constructor]).
+  cbn [okb Nat.leb andb] in H. unfold pseudo_okb in H.
+  eapply good_bind with (Q := pexp_ok).
+  - rewrite expand_pseudo_table. destruct (assoc_str name pseudo_table) as [t|] eqn:Et; [|exact I].
+    apply andb_prop in H. destruct H as [Ha Hp]. apply instantiate_good; auto.
+    pose proof templates_ok as F. rewrite forallb_forall in F. exact (F _ (assoc_in _ _ _ Et)).
+  - intros [it'|e target lo hi near far1 far2] Hx; simpl in Hx.
+    + apply good_done. constructor; auto.
+    + destruct Hx as (He & Hn & H1 & H2).
+      eapply good_bind with (Q := fun _ => True).
+      { unfold of_pres. destruct (eeval _ _ _ _ _ _ e) as [z|[l'|x]] eqn:E; try exact I.
+        exfalso. eapply (eeval_no_raw relocate_hi relocate_lo l p (chain_get consts ls) e x); eauto. }
+      intros v _. cbv zeta.
+      eapply good_bind with (Q := fun _ => True).
+      { destruct target; [exact I|]. unfold is_settled. destruct (is_position_relative e); [exact I|].
+        unfold eval_consts.
+        destruct (eeval _ _ _ _ _ _ e) as [z|[l'|x]] eqn:E; try exact I.
+        exfalso. eapply (eeval_no_raw relocate_hi relocate_lo l p (fun k => assoc_str k consts) e x); eauto. }
+      intros stable _. destruct (stable && _ && _); apply good_done; repeat constructor; auto.
+Qed.
+
+(* ---- transform_compressible ----------------------------------------------------------------------------------------- *)
+Definition ok_va {A} (r : res A) : Prop :=
+  match r with Ok _ => True | Err ValueError => True | Err AssemblerError => True | Err _ => False end.
+Lemma ok_va_bind {A B} (r : res A) (k : A -> res B) : ok_va r -> (forall a, ok_va (k a)) -> ok_va (a <- r ;; k a).
+Proof. destruct r as [a|[]]; simpl; auto; contradiction. Qed.
+Lemma lookup_register_va r c : ok_va (lookup_register r c).
+Proof.
+  unfold lookup_register.
+  destruct (assoc_key _ REGISTERS) as [v|]; [|exact I]. cbn [bind].
+  destruct c; [|exact I]. unfold guard. destruct (_ || _); exact I.
+Qed.
+
+Definition regkey (keys : list string) (f : string) : bool :=
+  mem_str f keys && negb (String.eqb f "imm") && negb (is_flag_key f) && negb (is_ghost_key f).
+Definition pred_okb (keys : list string) (p : pred) : bool :=
+  match p with
+  | PNameEquals _ => true
+  | PRegEquals f _ | PRegNotEquals f _ | PRegBetween f _ _ => regkey keys f
+  | PRegsMatch a b => regkey keys a && regkey keys b
+  | PImmEquals _ | PImmNotEquals _ | PImmDivisibleBy _ | PImmBetween _ _ => mem_str "imm" keys
+  end.
+
+Lemma mem_str_in k l : mem_str k l = true -> In k l.
+Proof.
+  induction l as [|x r IH]; simpl; intro H; try discriminate.
+  destruct (String.eqb k x) eqn:E. apply String.eqb_eq in E. auto. auto.
+Qed.
+Lemma flag_neq k k0 : is_flag_key k = false -> is_flag_key k0 = true -> String.eqb k k0 = false.
+Proof. intros A B. destruct (String.eqb k k0) eqn:E; auto. apply String.eqb_eq in E. subst. congruence. Qed.
+Lemma ghost_neq k k0 : is_ghost_key k = false -> is_ghost_key k0 = true -> String.eqb k k0 = false.
+Proof. intros A B. destruct (String.eqb k k0) eqn:E; auto. apply String.eqb_eq in E. subst. congruence. Qed.
+Lemma shape_get_reg : forall fs keys k,
+  shape_okb false keys fs = true -> In k keys -> is_flag_key k = false -> is_ghost_key k = false -> String.eqb k "imm" = false ->
+  exists a, assoc_str k fs = Some (FReg a).
+Proof.
+  induction fs as [|[k0 v] r IH]; intros keys k H Hin F G E.
+  - destruct keys; [contradiction|discriminate].
+  - cbn [shape_okb] in H. cbn [assoc_str].
+    destruct (is_flag_key k0) eqn:F0. { rewrite (flag_neq _ _ F F0). apply andb_prop in H. destruct H. eauto. }
+    destruct (is_ghost_key k0) eqn:G0. { rewrite (ghost_neq _ _ G G0). eauto. }
+    destruct keys as [|k' ks]; [discriminate|].
+    apply andb_prop in H. destruct H as [A B]. apply andb_prop in A. destruct A as [A1 A2].
+    apply String.eqb_eq in A1. subst k'.
+    destruct (String.eqb k k0) eqn:Ek.
+    + apply String.eqb_eq in Ek. subst k0. rewrite E in A2. destruct v; try discriminate. eauto.
+    + destruct Hin as [->|Hin]. rewrite String.eqb_refl in Ek. discriminate. eauto.
+Qed.
+Lemma shape_get_imm : forall fs keys,
+  shape_okb false keys fs = true -> In "imm"%string keys -> exists e, assoc_str "imm" fs = Some (FExpr e) /\ expr_ok e = true.
+Proof.
+  induction fs as [|[k0 v] r IH]; intros keys H Hin.
+  - destruct keys; [contradiction|discriminate].
+  - cbn [shape_okb] in H. cbn [assoc_str].
+    destruct (is_flag_key k0) eqn:F0. { rewrite (flag_neq "imm" _ eq_refl F0). apply andb_prop in H. destruct H. eauto. }
+    destruct (is_ghost_key k0) eqn:G0. { rewrite (ghost_neq "imm" _ eq_refl G0). eauto. }
+    destruct keys as [|k' ks]; [discriminate|].
+    apply andb_prop in H. destruct H as [A B]. apply andb_prop in A. destruct A as [A1 A2].
+    apply String.eqb_eq in A1. subst k'. rewrite String.eqb_sym.
+    destruct (String.eqb k0 "imm") eqn:Ek.
+    + destruct v; try discriminate. simpl in A2. eauto.
+    + destruct Hin as [->|Hin]. discriminate. eauto.
+Qed.
+Lemma shape_get_flag : forall fs keys a v,
+  shape_okb false keys fs = true -> is_flag_key a = true -> assoc_str a fs = Some v -> exists b, v = FBool b.
+Proof.
+  induction fs as [|[k0 w] r IH]; intros keys a v H F A; [discriminate|].
+  cbn [shape_okb] in H. cbn [assoc_str] in A.
+  destruct (String.eqb a k0) eqn:Ek.
+  - apply String.eqb_eq in Ek. subst k0. rewrite F in H. inversion A; subst w. apply andb_prop in H. destruct H as [H _].
+    destruct v; try discriminate. eauto.
+  - destruct (is_flag_key k0). { apply andb_prop in H. destruct H. eauto. }
+    destruct (is_ghost_key k0). { eauto. }
+    destruct keys as [|k' ks]; [discriminate|]. apply andb_prop in H. destruct H. eauto.
+Qed.
+
+Section View.
+Variables (l : line) (pos : Z) (consts labels : envt) (name : string) (fs : list (string * fval)) (keys : list string).
+Hypothesis Hs : shape_okb false keys fs = true.
+Let i := view_of l pos consts labels name fs.
+Lemma regkey_attr f : regkey keys f = true -> exists a, iv_attr i f = Ok a.
+Proof.
+  unfold regkey. intro H. apply andb_prop in H. destruct H as [H G]. apply andb_prop in H. destruct H as [H F].
+  apply andb_prop in H. destruct H as [M E]. apply negb_true_iff in G, F, E.
+  destruct (shape_get_reg _ _ _ Hs (mem_str_in _ _ M) F G E) as [a Ha]. exists a. simpl. unfold field_get. rewrite Ha. reflexivity.
+Qed.
+Lemma imm_va : mem_str "imm" keys = true -> ok_va (iv_imm i).
+Proof.
+  intro M. destruct (shape_get_imm _ _ Hs (mem_str_in _ _ M)) as (e & He & Hok). simpl. unfold field_get. rewrite He.
+  destruct (eeval _ _ _ _ _ _ e) as [z|[l'|x]] eqn:E; simpl; try exact I.
+  exfalso. eapply (eeval_no_raw relocate_hi relocate_lo l pos (chain_get consts labels) e x); eauto.
+Qed.
+Lemma pred_va p : pred_okb keys p = true -> ok_va (pred_sem p i).
+Proof.
+  destruct p; cbn [pred_okb pred_sem]; intro H; try exact I;
+    try (destruct (regkey_attr _ H) as [a ->]; cbn [bind]; apply ok_va_bind; [apply lookup_register_va|intro; exact I]);
+    try (apply ok_va_bind; [apply imm_va; exact H|intro; exact I]).
+  apply andb_prop in H. destruct H as [Ha Hb].
+  destruct (regkey_attr _ Ha) as [x ->]. cbn [bind]. apply ok_va_bind; [apply lookup_register_va|intro ra].
+  destruct (regkey_attr _ Hb) as [y ->]. cbn [bind]. apply ok_va_bind; [apply lookup_register_va|intro; exact I].
+Qed.
+Lemma all_preds_va ps : forallb (pred_okb keys) ps = true -> ok_va (all_preds ps i).
+Proof.
+  induction ps as [|p r IH]; simpl; intro H. exact I. apply andb_prop in H. destruct H as [A B].
+  apply ok_va_bind. apply pred_va; exact A. intros [|]; [apply IH; exact B|exact I].
+Qed.
+End View.
+
+Definition notflag (k : string) : bool := negb (is_flag_key k).
+Fixpoint cshape_okb (src : list string) (fnames : list string) (cfs : list cfield) : bool :=
+  match fnames, cfs with
+  | [], [] => true
+  | fn :: fr, cf :: cr =>
+      (if is_flag_key fn then match cf with FItem a => is_flag_key a | _ => false end
+       else if is_ghost_key fn then false
+       else if String.eqb fn "imm"
+            then match cf with FItem a => String.eqb a "imm" && mem_str "imm" src | FArithReg a => regkey src a | FArith _ => false end
+            else match cf with FItem a => regkey src a | _ => false end)
+      && cshape_okb src fr cr
+  | _, _ => false
+  end.
+Definition build_okb (src : list string) (rule : string) : bool :=
+  match assoc_str rule construction with
+  | Some (final, cls', cfs) =>
+      match assoc_str cls' class_sig, assoc_str cls' class_fields with
+      | Some (names', _), Some ("name" :: fnames)%string =>
+          mem_str final names' && imm_once (filter notflag fnames) && cshape_okb src fnames cfs
+      | _, _ => false
+      end
+  | None => true
+  end.
+Definition row_okb (row : string * list pred) : bool :=
+  match snd row with
+  | PNameEquals n :: rest =>
+      forallb (fun c => if mem_str n (fst (snd c))
+                        then match class_keys (fst c) with
+                             | Some keys => forallb (pred_okb keys) rest && build_okb keys (fst row)
+                             | None => false
+                             end
+                        else true) class_sig
+  | _ => false
+  end.
+(* every rule of the GENERATED criteria / construction tables reads only operands its instruction class has, and builds a
+   compressed instruction of the right shape *)
+Lemma criteria_ok : forallb row_okb criteria = true.
+Proof. vm_compute. reflexivity. Qed.
+
+Lemma build_field_shape fs src : shape_okb false src fs = true -> forall fnames cfs nfs,
+  cshape_okb src fnames cfs = true -> zip_fields fnames (map (build_field fs) cfs) = Some nfs ->
+  shape_okb false (filter notflag fnames) nfs = true.
+Proof.
+  intros Hs. induction fnames as [|fn fr IH]; intros cfs nfs C Z.
+  - destruct cfs; [|discriminate]. simpl in Z. inversion Z. reflexivity.
+  - destruct cfs as [|cf cr]; [discriminate|]. cbn [cshape_okb] in C. apply andb_prop in C. destruct C as [C1 C2].
+    cbn [map zip_fields] in Z. destruct (build_field fs cf) as [v|] eqn:Ev; try discriminate.
+    destruct (zip_fields fr (map (build_field fs) cr)) as [rest|] eqn:Er; try discriminate. inversion Z; subst. clear Z.
+    specialize (IH _ _ C2 Er). cbn [filter]. unfold notflag at 1. cbn [shape_okb].
+    destruct (is_flag_key fn) eqn:F.
+    + cbn [negb]. destruct cf; try discriminate. simpl in Ev. unfold field_get in Ev.
+      destruct (shape_get_flag _ _ _ _ Hs C1 Ev) as [b ->]. simpl. exact IH.
+    + cbn [negb shape_okb]. destruct (is_ghost_key fn); [discriminate|].
+      rewrite String.eqb_refl, IH, andb_true_r. simpl.
+      destruct (String.eqb fn "imm").
+      * destruct cf; try discriminate.
+        -- apply andb_prop in C1. destruct C1 as [A M]. apply String.eqb_eq in A. subst attr. simpl in Ev. unfold field_get in Ev.
+           exact (shape_imm_val _ _ _ Hs Ev).
+        -- simpl in Ev. destruct (field_get attr fs) as [[r| | |]|]; try discriminate.
+           destruct (lookup_register r false); inversion Ev. reflexivity.
+      * destruct cf; try discriminate. simpl in Ev. unfold field_get in Ev. unfold regkey in C1.
+        apply andb_prop in C1. destruct C1 as [H G]. apply andb_prop in H. destruct H as [H F'].
+        apply andb_prop in H. destruct H as [M E]. apply negb_true_iff in G, F', E.
+        destruct (shape_get_reg _ _ _ Hs (mem_str_in _ _ M) F' G E) as [a Ha]. rewrite Ha in Ev. inversion Ev. reflexivity.
+Qed.
+Lemma build_compressed_ok st fs src rule it' :
+  (st <= 3)%nat -> shape_okb false src fs = true -> build_okb src rule = true -> build_compressed rule fs = Some it' -> okb st it' = true.
+Proof.
+  intros Hst Hs B H. unfold build_compressed in H. unfold build_okb in B.
+  destruct (assoc_str rule construction) as [[[final cls'] cfs]|]; try discriminate.
+  destruct (assoc_str cls' class_sig) as [[names' kinds']|] eqn:Es; try discriminate.
+  destruct (assoc_str cls' class_fields) as [[|n0 fnames]|] eqn:Ef; try discriminate.
+  assert (n0 = "name"%string) as ->.
+  { destruct n0 as [|c0 n0]; try discriminate. revert B. repeat (match goal with |- context[match ?x with _ => _ end] => destruct x; try discriminate end). reflexivity. }
+  destruct (zip_fields fnames (map (build_field fs) cfs)) as [nfs|] eqn:Ez; try discriminate. inversion H; subst. clear H.
+  apply andb_prop in B. destruct B as [B C]. apply andb_prop in B. destruct B as [Bn Bi].
+  cbn [okb]. assert (Nat.leb st 4 = true) as -> by (apply Nat.leb_le; lia).
+  assert (Nat.eqb st 4 = false) as -> by (apply Nat.eqb_neq; lia). cbn [andb].
+  unfold instr_okb. rewrite Es. unfold class_keys. rewrite Ef. fold notflag.
+  rewrite Bn, Bi. simpl. eapply build_field_shape; eauto.
+Qed.
+
+Lemma select_rule_va l pos consts labels cls name fs names kinds keys :
+  assoc_str cls class_sig = Some (names, kinds) -> class_keys cls = Some keys -> mem_str name names = true ->
+  shape_okb false keys fs = true ->
+  forall cr, forallb row_okb cr = true ->
+    ok_va (select_rule cr (view_of l pos consts labels name fs)) /\
+    (forall rule, select_rule cr (view_of l pos consts labels name fs) = Ok (Some rule) -> build_okb keys rule = true).
+Proof.
+  intros Es Ek Hn Hs. induction cr as [|[rn ps] r IH]; intro H.
+  - split. exact I. discriminate.
+  - cbn [forallb] in H. apply andb_prop in H. destruct H as [Hrow Hr]. specialize (IH Hr). destruct IH as [IH1 IH2].
+    unfold row_okb in Hrow. cbn [fst snd] in Hrow.
+    destruct ps as [|[n| | | | | | | |] rest]; try discriminate.
+    cbn [select_rule all_preds pred_sem bind]. cbn [view_of iv_name].
+    destruct (String.eqb name n) eqn:En.
+    + apply String.eqb_eq in En. subst n.
+      rewrite forallb_forall in Hrow. specialize (Hrow _ (assoc_in _ _ _ Es)). cbn [fst snd] in Hrow.
+      rewrite Hn, Ek in Hrow. apply andb_prop in Hrow. destruct Hrow as [Hp Hb].
+      pose proof (all_preds_va l pos consts labels name fs keys Hs rest Hp) as V.
+      destruct (all_preds rest (view_of l pos consts labels name fs)) as [[|]|e]; cbn [bind].
+      * split. exact I. intros rule E. inversion E; subst. exact Hb.
+      * split; assumption.
+      * split. exact V. discriminate.
+    + cbn [bind]. split; assumption.
+Qed.
+
+Lemma imm_unstable_good l pos consts cls fs keys :
+  shape_okb false keys fs = true -> good (fun _ => True) (imm_unstable l pos consts cls fs).
+Proof.
+  intro Hs. unfold imm_unstable, field_get. destruct (assoc_str "imm" fs) as [v|] eqn:Ei; [|exact I].
+  pose proof (shape_imm_val _ _ _ Hs Ei) as Hv. destruct v; try discriminate. simpl in Hv.
+  destruct (_ && _); [exact I|].
+  eapply good_bind with (Q := fun _ => True); [|intros; exact I].
+  unfold is_settled. destruct (is_position_relative e); [exact I|]. unfold eval_consts.
+  destruct (eeval _ _ _ _ _ _ e) as [z|[l'|x]] eqn:E; try exact I.
+  exfalso. eapply (eeval_no_raw relocate_hi relocate_lo l pos (fun k => assoc_str k consts) e x); eauto.
+Qed.
+Lemma compress_rule_good st consts l it p ls :
+  (1 <= st <= 3)%nat -> okb st it = true -> is_label it = None -> good (oki st) (compress_rule consts l it p ls).
+Proof.
+  intros Hst H _. destruct it; cbn [compress_rule]; try (apply good_done; constructor; [exact H|constructor]).
+  pose proof H as H0. cbn [okb] in H. apply andb_prop in H. destruct H as [_ H].
+  assert (Nat.eqb st 4 = false) as E4 by (apply Nat.eqb_neq; lia). rewrite E4 in H.
+  unfold instr_okb in H.
+  destruct (assoc_str cls class_sig) as [[names kinds]|] eqn:Es; try discriminate.
+  destruct (class_keys cls) as [keys|] eqn:Ek; try discriminate.
+  apply andb_prop in H. destruct H as [H Hs]. apply andb_prop in H. destruct H as [Hn _].
+  eapply good_bind. eapply imm_unstable_good; eauto. intros u _.
+  destruct u. { apply good_done. constructor; [exact H0|constructor]. }
+  destruct (select_rule_va l p consts ls cls name fields names kinds keys Es Ek Hn Hs criteria criteria_ok) as [V B].
+  destruct (select_rule criteria _) as [[rule|]|e] eqn:Er.
+  - destruct (build_compressed rule fields) as [it'|] eqn:Eb; [|exact I].
+    apply good_done. constructor; [|constructor]. eapply build_compressed_ok; eauto. lia.
+  - apply good_done. constructor; [exact H0|constructor].
+  - unfold perr_of_pred. destruct e; simpl in V; try contradiction; exact I.
+Qed.
+
+(* ---- THE THEOREM ---------------------------------------------------------------------------------------------------- *)
+Section Main.
+Hypothesis Henc : forall cls name args names kinds,
+  assoc_str cls class_sig = Some (names, kinds) -> mem_str name names = true -> Forall2 kind_ok kinds args ->
+  only_ve (encode_call cls name args).
+
+Lemma compress_opt_good st (cmp : bool) its consts labels :
+  (1 <= st <= 3)%nat -> oks st its ->
+  good (fun p => oks st (fst p)) (if cmp then transform_compressible its consts labels else Done (its, labels)).
+Proof.
+  intros Hst H. destruct cmp; [|exact H]. unfold transform_compressible.
+  apply gpass_good with (st := st); auto. intros. apply compress_rule_good; auto.
+Qed.
+
+Theorem assemble_good its consts0 labels0 compress :
+  oks 0 its -> good (fun _ => True) (assemble_items its consts0 labels0 compress).
+Proof.
+  intro H0. unfold assemble_items.
+  eapply good_bind with (Q := fun p => oks 1 (fst p)).
+  { pose proof (constants_good its consts0 [] H0) as G.
+    destruct (resolve_constants_lr its consts0 []) as [[o c]|[l|x]|] eqn:E; try exact I; try contradiction.
+    simpl. rewrite (resolve_constants_filter _ _ _ _ _ E). simpl. apply filter_ok_0_1. exact H0. }
+  intros [its1 consts] H1. cbn [fst] in H1.
+  eapply good_bind with (Q := fun _ => True). { unfold resolve_labels. eapply labels_good; eauto. }
+  intros labels _.
+  eapply good_bind. { apply compress_opt_good with (st := 1%nat). lia. apply aliases_ok. exact H1. }
+  intros [its3 lab3] H3. cbn [fst] in H3.
+  eapply good_bind with (Q := fun p => oks 2 (fst p)).
+  { unfold transform_pseudo. apply gpass_good with (st := 1%nat); auto. intros. apply pseudo_rule_good; auto. }
+  intros [its4 lab4] H4. cbn [fst] in H4.
+  eapply good_bind. { apply compress_opt_good with (st := 2%nat). lia. apply aliases_ok. exact H4. }
+  intros [its6 lab6] H6. cbn [fst] in H6.
+  eapply good_bind with (Q := fun p => oks 3 (fst p)).
+  { unfold resolve_aligns. apply gpass_good with (st := 2%nat); auto. intros. apply align_rule_good; auto. }
+  intros [its7 lab7] H7. cbn [fst] in H7.
+  eapply good_bind. { apply immediates_good. exact H7. constructor. }
+  intros its8 H8.
+  eapply good_bind. { apply instructions_good. exact Henc. exact H8. constructor. }
+  intros its9 H9.
+  eapply good_bind. { apply sequences_good. apply strings_ok. exact H9. constructor. }
+  intros its11 H11.
+  eapply good_bind. { apply shorthand_good. exact H11. constructor. }
+  intros its12 H12.
+  eapply good_bind. { apply packs_good. exact H12. constructor. }
+  intros its13 H13.
+  eapply good_bind. { apply include_bytes_good. exact H13. constructor. }
+  intros its14 H14.
+  eapply good_bind. { apply blobs_good. exact H14. }
+  intros chunks _. exact I.
+Qed.
+End Main.
